@@ -532,9 +532,14 @@ def _seq_job(args):
 
 
 def seq_variants(scn, rich: bool):
+    """rich: every call form, with and without probe; otherwise two call forms per scenario, rotating with the
+    scenario so that every form meets every kind of scenario across the set"""
     h = sum(map(ord, json.dumps(scn, sort_keys=True)))
+    forms = forms_for(scn)
+    if not rich and len(forms) > 2:
+        forms = [forms[h % len(forms)], forms[(h + 1) % len(forms)]]
     out = []
-    for i, form in enumerate(forms_for(scn)):
+    for i, form in enumerate(forms):
         probe = bool((h + i) % 2)
         profile = ("plain", "falsy", "ints")[(h + i) % 3]
         out.append(dict(form=form, probe=probe, profile=profile, salt=h % 7))
